@@ -14,6 +14,7 @@ env.assert_repo(PARSERS, CultureInfo)
 ENGINE = os.environ.get('VERIF_ENGINE', 'native')
 CULTURE = sl('culture', 'en-us')
 SHAPE = sl('shape', {'groups': [3], 'frac': 0, 'neg': 0, 'grouped': 0})
+POWER = sl('power', 1)           # the multiplier _digit_number_parse collected from a k/M/G/T suffix (a power of ten)
 
 
 def make_parser():
@@ -33,6 +34,13 @@ FMT = SUPPORTED_CULTURES.get(CULTURE)
 # the culture's own marks: what the output formatter uses is also what the culture writes
 DEC_MARK = FMT.decimals_mark
 GRP_MARK = FMT.thousands_mark
+OWN_DEC = DEC_MARK
+if SHAPE.get('swap'):
+    # the other convention ("1.234,56" in en-us): cultures whose configuration is is_multi_decimal_separator_culture read a numeral
+    # with BOTH marks by their order; only shapes with both marks are built this way
+    DEC_MARK, GRP_MARK = GRP_MARK, DEC_MARK
+    if not (PARSER.config.is_multi_decimal_separator_culture and SHAPE.get('grouped') and SHAPE.get('frac') and len(SHAPE['groups']) > 1):
+        raise env.HarnessError('swapped-convention shape outside its domain')
 
 
 def build(ds):
@@ -74,14 +82,14 @@ def h_digital_value(d0: int, d1: int, d2: int, d3: int, d4: int, d5: int, d6: in
     if SHAPE.get('neg'):
         want = -want
     if ENGINE == 'sx':
-        got = PARSER._get_digital_value(symdec.SymText(items), 1)
+        got = PARSER._get_digital_value(symdec.SymText(items), POWER)
         assert isinstance(got, symdec.SymDec)
         assert got.exp >= -frac
-        assert got.scaled(-frac) == want
+        assert got.scaled(-frac) == want * POWER
     else:
         from decimal import Decimal
-        got = PARSER._get_digital_value(''.join(items), 1)
-        assert got == Decimal(int(want)).scaleb(-frac)
+        got = PARSER._get_digital_value(''.join(items), POWER)
+        assert got == Decimal(int(want)).scaleb(-frac) * POWER
 
 
 def t_digital_value(d0: int, d1: int, d2: int, d3: int, d4: int, d5: int, d6: int, d7: int, d8: int, d9: int, d10: int, d11: int, d12: int, d13: int, d14: int):
@@ -90,6 +98,43 @@ def t_digital_value(d0: int, d1: int, d2: int, d3: int, d4: int, d5: int, d6: in
     items, nint, n = build(ds)
     got = PARSER._get_digital_value(symdec.SymText(items) if ENGINE == 'sx' else ''.join(items), 1)
     assert got == 0
+
+
+# ---- C02 at unit level: a parser instance serves many requests; the value of a numeral must not depend on what it parsed before ----
+FIRSTS = sl('firsts', None)
+
+
+def _first_texts():
+    own_d, own_g = FMT.decimals_mark, FMT.thousands_mark
+    out = ['123', '1' + own_g + '234' + own_g + '567', '1' + own_d + '5', '1' + own_g + '234' + own_d + '56', '-12', '1' + own_g + '234', '0' + own_d + '25']
+    if PARSER.config.is_multi_decimal_separator_culture:
+        out += ['1' + own_d + '234' + own_g + '56', '12' + own_d + '345' + own_d + '678' + own_g + '9', '1' + own_d + '234']
+    return out
+
+
+def h_history_digital(d0: int, d1: int, d2: int, d3: int, d4: int, d5: int, d6: int, d7: int, d8: int, d9: int, d10: int, d11: int, d12: int, d13: int, d14: int):
+    """one parser object (as cached in the process-wide model cache) first parses each of a set of numerals that drive every
+    separator branch of the kernel, then the numeral of this slice with symbolic digits: the value is the number written"""
+    ds = [d0, d1, d2, d3, d4, d5, d6, d7, d8, d9, d10, d11, d12, d13, d14]
+    assume(all(0 <= d for d in ds[:NDIG]) and all(d <= 9 for d in ds[:NDIG]) and all(d == 0 for d in ds[NDIG:]))
+    assume(NDIG == 1 or SHAPE['groups'] == [1] or d0 >= 1)
+    parser = make_parser()
+    items, nint, n = build(ds)
+    frac = SHAPE.get('frac', 0)
+    want = 0
+    for i in range(n):
+        want = want * 10 + ds[i]
+    if SHAPE.get('neg'):
+        want = -want
+    for first in _first_texts():
+        parser._get_digital_value(first, 1)
+        if ENGINE == 'sx':
+            got = parser._get_digital_value(symdec.SymText(items), 1)
+            assert got.exp >= -frac and got.scaled(-frac) == want, first
+        else:
+            from decimal import Decimal
+            got = parser._get_digital_value(''.join(items), 1)
+            assert got == Decimal(int(want)).scaleb(-frac), first
 
 
 # ---- the canonical output: CultureInfo.format (CrossHair, symbolic decimal strings) --------------------------------------------
